@@ -129,6 +129,46 @@ GbcRel(pk, S, ret, err) ==
 RegisterRejected(S, isnull, flags) == isnull \/ S = {} \/ flags # 0
 
 (***************************************************************************)
+(* Part 1c.  "intersected with the topology after a restrict": which PUs   *)
+(* a hwloc_topology_restrict(set, flags) leaves (hwloc.h, Modifying a      *)
+(* loaded Topology).  The flag word decides which PUs disappear:           *)
+(*   by cpuset (default)       the PUs outside the set go; with            *)
+(*                             REMOVE_CPULESS the NUMA nodes that are left *)
+(*                             without PU go as well                       *)
+(*   BYNODESET                 the NUMA nodes outside the set go, no PU    *)
+(*   BYNODESET|REMOVE_MEMLESS  ... and the PUs that are left without local *)
+(*                             NUMA node go as well                        *)
+(* ADAPT_MISC / ADAPT_IO do not change PUs or nodes.  The call is refused  *)
+(* (EINVAL, nothing changes) for an illegal flag word, when the set keeps  *)
+(* no allowed PU (resp. node), and when a REMOVE_ flag would leave no      *)
+(* allowed node (resp. PU).                                                *)
+(*   pus, nodes   PU atoms and NUMA node OS indexes of the topology        *)
+(*   ncpus        node -> its local PUs (a PU is local to the nodes        *)
+(*                attached to its ancestors, at any level)                 *)
+(*   apus, anodes the allowed PUs / nodes                                  *)
+(*   KP, KN       the PUs / nodes that the given set contains              *)
+(***************************************************************************)
+R_REMOVE_CPULESS == 1   R_ADAPT_MISC == 2   R_ADAPT_IO == 4   R_BYNODESET == 8   R_REMOVE_MEMLESS == 16
+HasBit(f, b) == (f \div b) % 2 = 1
+RestrictBadFlags(f) == \/ f < 0 \/ f > 31
+                       \/ (HasBit(f, R_BYNODESET) /\ HasBit(f, R_REMOVE_CPULESS))
+                       \/ (~HasBit(f, R_BYNODESET) /\ HasBit(f, R_REMOVE_MEMLESS))
+RestrictOutcome(pus, nodes, ncpus, apus, anodes, f, KP, KN) ==
+  LET bynode == HasBit(f, R_BYNODESET)
+      p2 == IF ~bynode THEN pus \cap KP
+            ELSE IF HasBit(f, R_REMOVE_MEMLESS) THEN {c \in pus : \E n \in nodes \cap KN : c \in ncpus[n]}
+            ELSE pus
+      n2 == IF bynode THEN nodes \cap KN
+            ELSE IF HasBit(f, R_REMOVE_CPULESS) THEN {n \in nodes : ncpus[n] \cap p2 # {}}
+            ELSE nodes
+  IN [bad  |-> RestrictBadFlags(f),
+      must |-> IF bynode THEN anodes \cap KN = {} ELSE apus \cap KP = {},
+      may  |-> IF bynode THEN HasBit(f, R_REMOVE_MEMLESS) /\ apus \cap p2 = {}
+               ELSE HasBit(f, R_REMOVE_CPULESS) /\ anodes \cap n2 = {},
+      pus |-> p2, nodes |-> n2]
+RestrictRefused(o) == o.bad \/ o.must \/ o.may
+
+(***************************************************************************)
 (* Part 2.  Constructive model of cpukinds.c.  A model kind is             *)
 (* [cs, forced, eff, infos]; the array order is the internal order.        *)
 (***************************************************************************)
